@@ -1,10 +1,14 @@
 #!/bin/bash
-# tools/try_seed.sh <seed-dir> <property> [tier]  : apply a seeded change to /repo, run the check, undo the change
-D=$1; P=$2; T=${3:-quick}
+# tools/try_seed.sh <seed-dir> <property> [tier]  : apply a seeded change to /repo, run the check, undo the change.
+# The run writes its evidence and replay files to a scratch directory (GOVC_EVIDENCE_DIR), never to /verif/evidence:
+# the committed evidence must always describe the unchanged tree.
+D=$(readlink -f "$1"); P=$2; T=${3:-quick}
 cd /repo || exit 2
 if ! git apply --check "$D/patch.diff" 2>/dev/null; then echo "PATCH DOES NOT APPLY: $D"; exit 3; fi
 git apply "$D/patch.diff"
-cd /verif && ./check $P $T > /tmp/try_seed.out 2>&1; rc=$?
+SCR=$(mktemp -d /tmp/try_seed.XXXXXX)
+cd /verif && GOVC_EVIDENCE_DIR=$SCR ./check $P $T > $SCR/out 2>&1; rc=$?
 cd /repo && git checkout -- . 
-grep -E "VIOLATION|failed obligation|govc: property|KNOWN" /tmp/try_seed.out | head -8
+grep -E "VIOLATION|failed obligation|govc: property|KNOWN" $SCR/out | head -8
+rm -rf "$SCR"
 echo "exit=$rc"
